@@ -95,9 +95,12 @@ type SecretFactory struct {
 	T       *Trace
 	F       *Faults
 	Secrets []*Secret
-	// KeyIndex maps plaintext key bytes to the index of the secret that first held them
+	// KeyIndex maps plaintext key bytes to the index of the random secret that first held them
 	KeyIndex map[string]int
 	Quiet    bool // do not record SWith events
+	C        *Classifier
+	// FailedNew retains the buffers passed to a New call that was made to fail before copying
+	FailedNew [][]byte
 }
 
 type Secret struct {
@@ -115,13 +118,28 @@ func NewSecretFactory(t *Trace, f *Faults) *SecretFactory {
 	return &SecretFactory{T: t, F: f, KeyIndex: map[string]int{}}
 }
 
-func (f *SecretFactory) add(b []byte) *Secret {
+func (f *SecretFactory) add(b []byte, random bool) *Secret {
 	s := &Secret{f: f, ID: len(f.Secrets), b: b}
 	f.Secrets = append(f.Secrets, s)
-	if _, ok := f.KeyIndex[string(b)]; !ok {
-		f.KeyIndex[string(b)] = s.ID
+	if random {
+		if _, ok := f.KeyIndex[string(b)]; !ok {
+			f.KeyIndex[string(b)] = s.ID
+		}
 	}
 	return s
+}
+
+// Bytes returns the plaintext held by secret id (for leak scans).
+func (f *SecretFactory) Bytes(id int) []byte {
+	f.mu.Lock()
+	defer f.mu.Unlock()
+	return f.Secrets[id].b
+}
+
+func (f *SecretFactory) Count() int {
+	f.mu.Lock()
+	defer f.mu.Unlock()
+	return len(f.Secrets)
 }
 
 // Material returns the canonical number of the key material held by secret id.
@@ -135,26 +153,45 @@ func (f *SecretFactory) Material(b []byte) int {
 }
 
 func (f *SecretFactory) New(b []byte) (securememory.Secret, error) {
+	var c2 *Classifier
+	if f.C != nil {
+		c2 = &Classifier{Payloads: f.C.Payloads}
+	}
+	kind, n := "J", 0
+	f.mu.Lock()
+	if i, ok := f.KeyIndex[string(b)]; ok {
+		kind, n = "K", i
+	}
+	f.mu.Unlock()
+	if kind == "J" && c2 != nil {
+		kind, n = c2.Sym(b)
+	}
 	if _, k := f.F.Next(); k != "" {
-		f.T.Add("SNewErr")
+		f.mu.Lock()
+		id := len(f.Secrets)
+		f.FailedNew = append(f.FailedNew, b)
+		f.mu.Unlock()
+		f.T.Add("SNew", id, kind, n, false)
 		return nil, ErrInjected
 	}
 	f.mu.Lock()
 	c := make([]byte, len(b))
 	copy(c, b)
-	s := f.add(c)
-	mat := f.KeyIndex[string(c)]
+	s := f.add(c, false)
 	f.mu.Unlock()
 	for i := range b {
 		b[i] = 0
 	}
-	f.T.Add("SNew", s.ID, mat)
+	f.T.Add("SNew", s.ID, kind, n, true)
 	return s, nil
 }
 
 func (f *SecretFactory) CreateRandom(size int) (securememory.Secret, error) {
 	if _, k := f.F.Next(); k != "" {
-		f.T.Add("SRandErr")
+		f.mu.Lock()
+		id := len(f.Secrets)
+		f.mu.Unlock()
+		f.T.Add("SRand", id, false)
 		return nil, ErrInjected
 	}
 	c := make([]byte, size)
@@ -162,9 +199,9 @@ func (f *SecretFactory) CreateRandom(size int) (securememory.Secret, error) {
 		return nil, err
 	}
 	f.mu.Lock()
-	s := f.add(c)
+	s := f.add(c, true)
 	f.mu.Unlock()
-	f.T.Add("SRand", s.ID)
+	f.T.Add("SRand", s.ID, true)
 	return s, nil
 }
 
